@@ -935,7 +935,9 @@ pub fn options(args: &[String]) {
         let base = match base { Ok(b) => b, Err(_) => continue };
         let mut why = String::new();
         let mut key = "";
-        for mask in 1..8u32 {
+        // the events of the events-only run: every other subset that has events must report the same ones, bit for bit
+        let mut ev_ref: Option<(Vec<Vec<f64>>, Vec<Vec<Vec<f64>>>)> = None;
+        for mask in [4u32, 1, 2, 3, 5, 6, 7] {
             let (r, h, n) = run(mask & 1 != 0, mask & 2 != 0, mask & 4 != 0, None, &pts);
             let r = match r { Ok(r) => r, Err(e) => { why = format!("option subset {:03b} fails with {:?}", mask, e); key = "c12-error"; break; } };
             if h != h0 || n != n0 { why = format!("option subset {:03b} (bit0 t_eval, bit1 dense, bit2 events): the sequence of right-hand-side calls differs from the plain run ({} vs {} calls)", mask, n, n0); key = "c12-calls"; break; }
@@ -944,6 +946,16 @@ pub fn options(args: &[String]) {
                 let i = (0..r.t.len().min(base.t.len())).find(|&i| r.t[i].to_bits() != base.t[i].to_bits() || !bits_eq(&r.y[i], &base.y[i]));
                 let at = match i { Some(i) => format!("sample {}: t = {:e} y = {:?}, plain run: t = {:e} y = {:?}", i, r.t[i], r.y[i], base.t[i], base.y[i]), None => format!("{} samples, plain run {}", r.t.len(), base.t.len()) };
                 why = format!("option subset {:03b}: accepted samples differ from the plain run ({})", mask, at); key = "c12-samples"; break;
+            }
+            if mask & 4 != 0 {
+                match &ev_ref {
+                    None => ev_ref = Some((r.t_events.clone(), r.y_events.clone())),
+                    Some((te, ye)) => {
+                        let same = te.len() == r.t_events.len() && te.iter().zip(r.t_events.iter()).all(|(a, b)| bits_eq(a, b))
+                            && ye.len() == r.y_events.len() && ye.iter().zip(r.y_events.iter()).all(|(a, b)| rows_eq(a, b));
+                        if !same { why = format!("option subset {:03b} (bit0 t_eval, bit1 dense, bit2 events) reports other events than the events-only run: {:?} vs {:?}", mask, r.t_events, te); key = "c09-events-option-dependent"; break; }
+                    }
+                }
             }
             // with t_eval the reported value at xend is the interpolant's (C05); the integrator's own trajectory is compared
             // through the hash of every right-hand-side call (times and states) above
